@@ -482,7 +482,7 @@ def soap_body_elt(root, ns):
     return None
 
 
-def xml_case(sv, term, table, proto, validator, body):
+def xml_case(sv, term, table, proto, validator, body, wsgi=False):
     """-> (coq case text, description) or None when the request is outside the modelled universe"""
     app = sv.app('model', proto, validator)
     prot = app.in_protocol
@@ -515,12 +515,30 @@ def xml_case(sv, term, table, proto, validator, body):
         return None
     soft = gbool(validator == 'soft')
     sch = gopt(verdict, gbool)
+    desc = '%s validator=%s %r -> %s' % (proto, validator, body[:200], obs.short())
     if not soap:
         t = '(KXml %s (mkxreq %s (LibRaise EException) %s) %s)' % (soft, first, sch, exp)
+        if wsgi:
+            wobs = D.observe(sv, 'model', dict(protocol=proto, validator=validator, transport='wsgi', body=body,
+                                               ctype='text/xml'))
+            wexp = g_outcome_wsgi(wobs, term, table)
+            if wexp is not None:
+                return [(t, desc), ('(KXmlW %s (mkxreq %s (LibRaise EException) %s) %s)' % (soft, first, sch, wexp),
+                                    'wsgi ' + desc + ' / ' + wobs.short())]
     else:
         t = '(KSoap %s %s (mksreq None %s (LibRaise EException) %s) %s)' % (
             'NS_SOAP11' if proto == 'soap11' else 'NS_SOAP12', soft, first, sch, exp)
-    return t, '%s validator=%s %r -> %s' % (proto, validator, body[:200], obs.short())
+    return [(t, desc)]
+
+
+def g_outcome_wsgi(obs, term, table):
+    if obs.kind == 'ok':
+        if len(obs.called) != 1:
+            return None
+        return '(Called %d%%nat)' % term.method_cls[obs.called[0]]
+    if obs.kind == 'fault':
+        return '(Answered EFault %s)' % gtext(obs.code or '')
+    return '(Escaped %s [])' % g_exc(obs.mro or [obs.exc], table)
 
 
 def lib_parse_dict(prot, proto, body):
@@ -544,7 +562,7 @@ def lib_parse_dict(prot, proto, body):
         return None, None, names(e)
 
 
-def dict_case(sv, term, table, proto, validator, body):
+def dict_case(sv, term, table, proto, validator, body, wsgi=False):
     app = sv.app('model', proto, validator)
     prot = app.in_protocol
     doc, dexc, lexc = lib_parse_dict(prot, proto, body)
@@ -574,7 +592,15 @@ def dict_case(sv, term, table, proto, validator, body):
         return None
     P = {'json': 'PJson', 'yaml': 'PYaml', 'msgpack': 'PMsgpack'}[proto]
     t = '(KDict %s %s %s %s %s)' % (P, gbool(validator == 'soft'), rq, gtext(key), exp)
-    return t, '%s validator=%s %r -> %s' % (proto, validator, body[:200], obs.short())
+    desc = '%s validator=%s %r -> %s' % (proto, validator, body[:200], obs.short())
+    out = [(t, desc)]
+    if wsgi:
+        wobs = D.observe(sv, 'model', dict(protocol=proto, validator=validator, transport='wsgi', body=body))
+        wexp = g_outcome_wsgi(wobs, term, table)
+        if wexp is not None:
+            out.append(('(KDictW %s %s %s %s %s)' % (P, gbool(validator == 'soft'), rq, gtext(key), wexp),
+                        'wsgi ' + desc + ' / ' + wobs.short()))
+    return out
 
 
 LIB_SEEN = []
@@ -583,16 +609,22 @@ CASE_PRELUDE = '''
 Inductive kase :=
 | KXml (soft : bool) (rq : xml_request) (exp : outcome)
 | KSoap (ns : text) (soft : bool) (rq : soap_request) (exp : outcome)
-| KDict (P : dproto) (soft : bool) (rq : dict_request) (key : text) (exp : outcome).
+| KDict (P : dproto) (soft : bool) (rq : dict_request) (key : text) (exp : outcome)
+| KXmlW (soft : bool) (rq : xml_request) (exp : outcome)
+| KDictW (P : dproto) (soft : bool) (rq : dict_request) (key : text) (exp : outcome).
 Definition run_kase (k : kase) : outcome :=
   match k with
   | KXml soft rq _ => xml_server soft app0 rq
   | KSoap ns soft rq _ => soap_server ns soft app0 rq
   | KDict P soft rq key _ => dict_server (fmt_const key) P soft app0 40 rq
+  | KXmlW soft rq _ => xml_wsgi soft app0 (Ret tt) rq
+  | KDictW P soft rq key _ => dict_wsgi (fmt_const key) P soft app0 40 (Ret tt) rq
   end.
 Definition kase_ok (k : kase) : bool :=
-  outcome_eqb (run_kase k)
-    (match k with KXml _ _ e => e | KSoap _ _ _ e => e | KDict _ _ _ _ e => e end).
+  match k with
+  | KXml _ _ e | KSoap _ _ _ e | KDict _ _ _ _ e => outcome_eqb (run_kase k) e
+  | KXmlW _ _ e | KDictW _ _ _ _ e => outcome_code_eqb (run_kase k) e
+  end.
 '''
 
 
@@ -631,14 +663,15 @@ def correspondence(check, sv):
             if (p, v, b) in seen:
                 continue
             seen.add((p, v, b))
+            w = check.rng.random() < .3
             try:
-                c = xml_case(sv, term, table, p, v, b) if p in D.XML_FAMILY else dict_case(sv, term, table, p, v, b)
+                c = xml_case(sv, term, table, p, v, b, wsgi=w) if p in D.XML_FAMILY else dict_case(sv, term, table, p, v, b, wsgi=w)
             except RecursionError:
                 c = None
             if c is None:
                 skipped += 1
                 continue
-            cases['xml' if p == 'xml' else 'soap' if p in D.XML_FAMILY else 'dict'].append(c)
+            cases['xml' if p == 'xml' else 'soap' if p in D.XML_FAMILY else 'dict'].extend(c)
             check.count(('corr', p, v, b))
     check.extra['correspondence_skipped_outside_universe'] = skipped
     # the library assumptions of the theorems, against what the libraries did in this run
